@@ -552,7 +552,7 @@ def model_check(ctx):
     from concurrent.futures import ThreadPoolExecutor
     with ThreadPoolExecutor(max_workers=5) as ex:
         main = ex.submit(ctx.tlc, ENGINE, "MCFetchLog", cfg, workers=12, timeout=1500)
-        gr = [ex.submit(ctx.tlc, ENGINE, "MCFetchLog", g, workers=1, timeout=300) for g in guards]
+        gr = [ex.submit(ctx.tlc, ENGINE, "MCFetchLog", g, workers=2, timeout=1500) for g in guards]
         r = main.result()
         gr = [g.result() for g in gr]
     if r["violated"] or r["error"] or r["timeout"]:
